@@ -1,21 +1,21 @@
 SPECIFICATION Spec
 CONSTANTS
   MaxPg = 3
-  MaxOps = 4
+  MaxOps = 3
   BlockOf <- BlockL1
   LockPg = 0
   AllowWAL = FALSE
-  FinModes = {"DELETE"}
+  FinModes = {"DELETE", "TRUNCATE", "PERSIST"}
   AllowSpill = TRUE
-  AllowBeyond = FALSE
+  AllowBeyond = TRUE
   FixBeyond = TRUE
-  AllowNoSync = FALSE
+  AllowNoSync = TRUE
   FixOOB = TRUE
   FixFirstRb = TRUE
   AllowCrash = FALSE
   FixJournalNoPS = TRUE
   FixModeOnOpen = TRUE
-  AllowRetain = TRUE
+  AllowRetain = FALSE
   Emit = "idle"
 VIEW view
 INVARIANTS NoFault C04_Checksum C02_Image C02_Delta C02_Outcome C09_Chain CacheSound EmitInv
